@@ -54,7 +54,10 @@ CHECK = {
     },
     "parts": [
         {"name": "algorithms", "harness": "c18_algorithms", "flavour": "rel",
-         "shards": {"quick": 16, "thorough": 16}, "deadline": {"quick": 120, "thorough": 1100}},
+         # the thorough bounds cost ~25 s on 16 cores: the quick command runs them too (the harness at
+         # its thorough depth; bounds.thorough is what the quick evidence covers)
+         "depth": {"quick": "thorough"},
+         "shards": {"quick": 16, "thorough": 16}, "deadline": {"quick": 600, "thorough": 1100}},
     ],
 }
 
